@@ -212,3 +212,45 @@ def strip(sc):
     out["steps"] = [{k: v for k, v in st.items() if not k.startswith("_")} for st in sc["steps"]]
     out.pop("notes", None)
     return out
+
+
+# ---------------------------------------------------------------- T3: shapes of the pool source
+def regen_pool():
+    src = run_xlate("pool", [os.path.join(REPO, "engine", "gengine_pool.go")])
+    return write_if_changed(os.path.join(GEN, "Gen_Pool.v"), src)
+
+
+SHAPE_HEADER = """From Coq Require Import String List Bool.
+From GV Require Import Pool.Shape.
+From GVgen Require Import Gen_Pool.
+Import ListNotations.
+"""
+
+
+def pool_obligation():
+    """Per-run T3 obligations. Returns (bad wrapper names, bad update-method names, prepare_ok)."""
+    path = os.path.join(GEN, "cases_poolshape.v")
+    open(path, "w").write(SHAPE_HEADER + "Definition BW := Eval vm_compute in bad_wrappers gen_wrappers.\nPrint BW.\n"
+                          "Definition BU := Eval vm_compute in bad_updates gen_updates.\nPrint BU.\n"
+                          "Definition PS := Eval vm_compute in (gen_prepare_snapshots && gen_snapshot_locked_one_read)%bool.\nPrint PS.\n")
+    ok, out, err = coqc(os.path.join("gen", "cases_poolshape.v"))
+    if not ok:
+        raise HarnessError("coqc failed on the pool shape file: " + (out + err)[-2000:])
+    flat = re.sub(r"\s+", " ", out)
+    bw = re.findall(r'"([^"]+)"', re.search(r"BW = (.*?) : ", flat).group(1))
+    bu = re.findall(r'"([^"]+)"', re.search(r"BU = (.*?) : ", flat).group(1))
+    ps = "true" in re.search(r"PS = (.*?) : ", flat).group(1)
+    ok2, out2, err2 = coqc(os.path.join("obligations", "GenPoolOk.v"))
+    return bw, bu, ps, ok2
+
+
+def shape_report(run, pid, which, found_concrete):
+    """which: 'wrappers' or 'updates'. Reports a broken T3 obligation when no concrete failing history was found."""
+    bw, bu, ps, ok2 = pool_obligation()
+    bad = bw if which == "wrappers" else (bu + ([] if ps else ["prepare/snapshotRuleBuilder"]))
+    if bad and not found_concrete:
+        run.report({"kind": "obligation", "symptom": "pool-shape", "which": which, "names": bad},
+                   {"obligation": "obligations/GenPoolOk.v: %s" % ("wrappers_ok gen_wrappers = true" if which == "wrappers" else "updates_ok ... gen_updates = true"),
+                    "offending": bad, "generated": open(os.path.join(GEN, "Gen_Pool.v")).read()[-3000:]},
+                   "%s: the structure of %s in engine/gengine_pool.go is no longer the one the theorems are proved for, and no failing history was found" % (pid, ", ".join(bad)), no_input=True)
+    return bad
